@@ -153,8 +153,8 @@ def specTokenSet (t : List Nat) : Option (List (Nat × Nat)) :=
 def specParseToken (a : List String) : Option String :=
   let t := unhex (a.getD 0 "-")
   match specTokenSet t with
-  | some set => some s!"all:nopanic;;has: set={fmtEntries set} ;;has: bad=0"
-  | none => some "all:nopanic;;nobad"
+  | some set => some s!"all:[C09]nopanic;;[C05]has: set={fmtEntries set} ;;[C10]has: bad=0"
+  | none => some "all:[C09]nopanic;;[C10]nobad"
 
 def splitOn44 (s : List Nat) : List (List Nat) := splitCommas s
 
@@ -166,8 +166,8 @@ def specParseRange (a : List String) : Option String :=
     -- well-formed token list: later tokens overwrite earlier ones
     let final : List (Nat × Nat) := (sets.filterMap id).foldl (fun m set =>
       set.foldl (fun m (c, w) => (c, w) :: m.filter (fun e => e.1 != c)) m) []
-    some s!"all:nopanic;;has: n={final.length} map={fmtEntries final} bad=0 ;;has: reparse=1"
-  else some "all:nopanic;;has: bad=0 ;;has: reparse=1;;has:badprob=0"
+    some s!"all:[C09]nopanic;;[C05]has: n={final.length} map={fmtEntries final} ;;[C10]has: bad=0 ;;[C06]has: reparse=1;;[C10]has:badprob=0"
+  else some "all:[C09]nopanic;;[C10]has: bad=0 ;;[C06]has: reparse=1;;[C10]has:badprob=0"
 
 def specContents (es : List (Combo × UInt32)) : Spec.Contents UInt32 :=
   es.foldl (fun m e => ((e.1.fst.code, e.1.snd.code), e.2) :: m.filter (fun x => x.1 != (e.1.fst.code, e.1.snd.code))) []
@@ -196,13 +196,13 @@ def specRangeOps (a : List String) : Option String :=
   let es := listedEntries (a.drop 1)
   let proper := es.all fun e => !entryBad e && Card.lt e.1.fst e.1.snd && e.1.fst.valid && e.1.snd.valid
     && e.2 != 0x80000000
-  if !proper then some "all:nopanic" else
+  if !proper then some "all:[C09]nopanic" else
   let m := specContents es
   let rp := Spec.rankPairView f32Eq m
   let rpS := if rp.isEmpty then "-" else ",".intercalate (sortStrings (rp.map fun (k, w) => s!"{specRpKey k}:{w.toNat}"))
   let orph := Spec.orphanView f32Eq m
   let orphS := fmtEntries (orph.map fun ((x, y), w) => (52 * x + y, w.toNat))
-  some s!"all:nopanic;;has: rp={rpS} orph={orphS} reparse=1;;has: rptext={hex (specRpText m)} "
+  some s!"all:[C09]nopanic;;[C12]has: rp={rpS} orph={orphS} ;;[C06]has: reparse=1;;[C17]has: rptext={hex (specRpText m)} "
 
 def specCanon (_a : List String) : Option String := some "all:nopanic;;has:same=1 "
 
@@ -296,8 +296,8 @@ def textSpec (op : String) (a : List String) : Option String :=
   | "parse_token" => specParseToken a
   | "parse_range" => specParseRange a
   | "token_roundtrip" => (match specTokenSet (unhex (a.getD 0 "-")) with
-      | some _ => some "all:nopanic;;has:ok rt=1 "
-      | none => some "all:nopanic")
+      | some _ => some "all:[C09]nopanic;;[C06]has:ok rt=1 "
+      | none => some "all:[C09]nopanic")
   | "range_ops" => specRangeOps a
   | "canon" => specCanon a
   | "c15" => some "all:nopanic;;has:inter=1 threads=1 "
